@@ -125,8 +125,12 @@ fn worker(args: &[String]) -> Result<i32, String> {
         writeln!(out, "B {run}").ok();
         out.flush().ok();
         current.store(run, std::sync::atomic::Ordering::SeqCst);
+        let t_run = Instant::now();
         let sc = p.gen(run_seed(seed, id, run));
         let e = p.exec(&sc, &mut ctr)?;
+        if std::env::var("XSG_SLOW").is_ok() && t_run.elapsed().as_millis() > 150 {
+            eprintln!("slow run {run}: {} ms, scenario {} bytes", t_run.elapsed().as_millis(), sc.to_j().to_string().len());
+        }
         if let Some(d) = &e.discarded {
             writeln!(out, "X {run} {}", esc(d)).ok();
         }
